@@ -118,6 +118,10 @@ def handle : Handler
       let x ← rat? v
       let tol : Rat := 1 / 1000000000
       some (if -tol ≤ x && x ≤ 1 + tol then "holds" else "fails out-of-[0,1]")) "bad-args"
+  | "c08.spec_nonneg", [v] => some <| Option.getD (do
+      let x ← rat? v
+      let tol : Rat := 1 / 1000000000
+      some (if -tol ≤ x then "holds" else "fails negative")) "bad-args"
   | _, _ => none
 
 end SkNet.Drive.C08
